@@ -82,7 +82,8 @@ def ident(x):
 
 def _pick(opts):
     """The task object to call for a `task` node, by options."""
-    t = {"node": node, "pnode": pnode, "anode": anode, "dnode": dnode}[opts.get("t", "node")]
+    t = {"node": node, "pnode": pnode, "anode": anode, "dnode": dnode, "cnode": cnode, "onode": onode,
+         "xnode": xnode}[opts.get("t", "node")]
     o = {}
     for k in ("executor", "limits", "cache", "cache_scope", "check_valid", "nout", "prov", "tags", "mode"):
         if k in opts:
@@ -122,9 +123,16 @@ def comp(ast, env):
     if k == "task":
         body, binds, opts = ast[1], ast[2], ast[3]
         envd = {n: comp(b, env) for n, b in binds.items()}
+        t = _pick(opts)
+        if "options" in opts:   # arbitrary call-time options
+            t = t.options(**opts["options"])
+        if "optexpr" in opts:   # call-time options whose values are expressions
+            t = t.options(**{key: comp(v, env) for key, v in opts["optexpr"].items()})
+        if "ctxe" in opts:      # context override whose values are expressions
+            t = t.update_context(**{key: comp(v, env) for key, v in opts["ctxe"].items()})
         if "d" in opts:
-            return _pick(opts)(body, envd, d=comp(opts["d"], env))
-        return _pick(opts)(body, envd)
+            return t(body, envd, d=comp(opts["d"], env))
+        return t(body, envd)
     if k == "ptask":   # partial application, then call
         body, binds, opts = ast[1], ast[2], ast[3]
         return _pick(opts).partial(body)({n: comp(b, env) for n, b in binds.items()})
@@ -247,6 +255,36 @@ def dnode(ast, env, d=ident(7), d2=node(["op", "add", ["lit", ["int", 1]], ["lit
     env2 = dict(env)
     env2["d"] = d
     env2["d2"] = d2
+    return comp(ast, env2)
+
+
+@task(name="onode", memory=1, vcpus=2, flavor="def")
+def onode(ast, env):
+    """Task with definition-time options."""
+    _log("onode", ast)
+    return comp(ast, env)
+
+
+@task(name="xnode", export_options={"memory": 8, "zone": "z-def"}, flavor="xdef")
+def xnode(ast, env):
+    """Task that exports options at definition time."""
+    _log("xnode", ast)
+    return comp(ast, env)
+
+
+def _gc(path, default=None):
+    from redun.context import get_context
+
+    return get_context(path, default)
+
+
+@task(name="cnode")
+def cnode(ast, env, c=_gc("a", "none"), c2=_gc("b.x", 0)):
+    """Task whose default arguments read the context (available as vars c and c2)."""
+    _log("cnode", ast)
+    env2 = dict(env)
+    env2["c"] = c
+    env2["c2"] = c2
     return comp(ast, env2)
 
 
